@@ -91,6 +91,10 @@ CHECKS = {
             SIM + ": LP staking histories (stake, gradient updates, claims, partial/full unstakes, claim toggles, dust into position vaults) under clock jumps across week buckets, tx loss/duplication/delay and byzantine twins; BigInt reward schedule reference and fork monotonicity probes",
             "Real liquidity-provider and store programs; rewards observed through the GT actually minted and bracketed by a BigInt evaluation of the weekly-bucket average (weeks past the last bucket use the last one); forks with larger stake value / longer cost integral must not earn less; partial unstakes return exactly the request and keep floor(value x remaining/old); full exits sweep the vault incl. dust; with claims disabled only full exits land; gradients above the 200 % cap are rejected.",
             "stake_glv (GLV pricing CPI, Token-2022) is not covered; the private reward functions are observed through their on-chain effect only", "§5 C38"),
+    "C39": ("exploration", "chainsim/scn-competition",
+            SIM + ": trade-callback histories from 2-12 traders delivered to the real competition program (callback-authority PDA flagged as signer, trade-event account written by the simulator) under stalled / jumping clocks, duplicate deliveries and byzantine callers; exact top-5 / extension model; a second part drives real store orders with the competition as callback and cross-checks the forged inputs",
+            "After every delivered callback the leaderboard has at most five distinct traders in non-increasing order with their latest totals, every participant left off a full board has no more volume than the last entry, and the end time never moves earlier nor past max(old end, now + cap). Part 2 executes real orders through the store with the competition as callback and requires byte-identical competition state between the real CPI and the forged delivery.",
+            "the main part forges the store's CPI (declared stub); the clock is monotone as on Solana (a violation needing a backward clock step was classified as a false alarm of the fault model and the regression removed)", "§5 C39"),
     "C09": ("exploration", "chainsim/scn-exchange",
             SIM + ": liquidation attempts by the keeper on live positions after price moves; a successful liquidation must close the whole position",
             "Chain part only: liquidations reached in exchange histories always remove the whole position. Health predicates (validate / check_liquidatable) and ADL are not yet covered here.",
